@@ -2,6 +2,7 @@
 
 from __future__ import annotations
 from datetime import date
+import operator
 import math
 from typing import List
 from .naming import _get_reserved_names
@@ -29,6 +30,10 @@ def set_repr_rows(n: int | None):
 	>>> serif.set_repr_rows(None)  # Reset to default
 	"""
 	global _REPR_ROWS_DEFAULT
+	if n is not None:
+		# (refused here, not by every later repr: a float or a string would only fail when the
+		# preview of data longer than the limit is sliced)
+		n = operator.index(n)
 	_REPR_ROWS_DEFAULT = n if n is not None else 12
 
 
